@@ -24,6 +24,10 @@ mod subcommands;
 
 mod tests;
 
+// Verification hooks: API export for an in-process simulation harness. Off by default.
+#[cfg(dandavison_delta_verif)]
+pub mod verif_hooks;
+
 use std::ffi::{OsStr, OsString};
 use std::io::{self, BufRead, Cursor, ErrorKind, IsTerminal, Write};
 use std::process::{self, Command, Stdio};
@@ -41,6 +45,12 @@ pub fn fatal<T>(errmsg: T) -> !
 where
     T: AsRef<str> + std::fmt::Display,
 {
+    // An in-process harness must be able to catch a configuration error.
+    #[cfg(dandavison_delta_verif)]
+    #[allow(unreachable_code)]
+    {
+        panic!("fatal: {}\n", errmsg);
+    }
     #[cfg(not(test))]
     {
         eprintln!("{errmsg}");
